@@ -47,7 +47,10 @@ def instances(tier, seed):
     pairs = list(itertools.product(cand, repeat=2))
     rng.shuffle(pairs)
     npairs = 40 if tier == "quick" else 400
-    for ti, si in pairs[:npairs]:
+    leafless = [i for i, t in enumerate(TREES) if t in ((), None) or t == (None, 1)]
+    empties = [TREES.index(())]
+    forced = [(e, o) for e in empties for o in (2, 3, 5, 7)] + [(o, e) for e in empties for o in (2, 3, 5, 7)]
+    for ti, si in forced + pairs[:npairs]:
         for form in FORMS:
             out.append(("core", dict(kind="algebra", t=ti, s=si, form=form, bind_s=True)))
     for ti in cand[:8]:
